@@ -2,7 +2,9 @@
 (* C28 "Event listeners fire exactly as registered" - histories part.
 
    MECHANISM layer (transcribed from lib/sqlalchemy/event/{attr,registry,base}.py, one event name):
-     cpar        parent of the late-created class C (0 = not created yet); classes 1=Base 2=A(Base) 3=B(A) 4=C(cpar)
+     cpar        Shape "chain":   classes 1=Base 2=A(Base) 3=B(A) 4=C(cpar), cpar = parent of the late-created class C
+                 Shape "diamond": classes 1=Base 2=L(Base) 3=R(Base) 4=M, the late class with TWO bases: cpar = 23 for M(L, R),
+                                  32 for M(R, L); 0 = not created yet
      clin, cl    _ClsLevelDispatch._clslevel: which classes have a deque, and its contents (listener fns)
      inst[k]     target instance k (targets 11, 12): its class, the kind of collection behind `inst.dispatch.ev`
                  ("empty" = _EmptyListener, "coll" = _ListenerCollection; for a joined instance the kind of
@@ -27,6 +29,7 @@ CONSTANTS NF,          \* number of listener functions
           CPars,       \* possible parents of the late class C
           BadRm,       \* targets on which a Remove of a not-registered (target, fn) is attempted
           NShards, Shard,
+          Shape,           \* "chain" or "diamond" (see cpar above)
           JoinedXoBroken   \* TRUE = the pinned tree: exec_once on a _JoinedListener raises AttributeError (see DoExecOnce)
 VARIABLES st, last, prev, n   \* last = label and expected result of the step just taken, prev = the state it was taken from,
 vars == <<st, last, prev, n>> \* n = steps taken (all three hidden by VIEW: they do not multiply states)
@@ -37,16 +40,29 @@ Owners == 0..2
 Range(s) == {s[i] : i \in 1..Len(s)}
 NoInst == [cls |-> 0, kind |-> "none", ls |-> <<>>, prop |-> {}, xo |-> FALSE, join |-> 0]
 NoWr == [once |-> 0, named |-> FALSE, retval |-> FALSE]
-InitSt == [cpar |-> 0, clin |-> {}, cl |-> [c \in Classes |-> <<>>], inst |-> [k \in Insts |-> NoInst],
+InitSt == [shape |-> Shape, cpar |-> 0, clin |-> {}, cl |-> [c \in Classes |-> <<>>], inst |-> [k \in Insts |-> NoInst],
            wr |-> [f \in Fns |-> NoWr], k2c |-> {}, c2k |-> {}, log |-> <<>>, upd |-> FALSE]
 R(s, out, calls) == [st |-> s, ret |-> [out |-> out, calls |-> calls]]
 \* ---------------------------------------------------------------- class tree
-Par(s, c) == CASE c = 1 -> 0 [] c = 2 -> 1 [] c = 3 -> 2 [] OTHER -> s.cpar
+Par(s, c) == CASE c = 1 -> 0 [] c = 2 -> 1 [] c = 3 -> 2 [] OTHER -> s.cpar      \* chain only
 Exists(s, c) == c \in 1..3 \/ (c = 4 /\ s.cpar # 0)
-RECURSIVE Anc(_, _)              \* cls.__mro__ (self first)
-Anc(s, c) == IF c = 0 THEN <<>> ELSE <<c>> \o Anc(s, Par(s, c))
+RECURSIVE ChainAnc(_, _)
+ChainAnc(s, c) == IF c = 0 THEN <<>> ELSE <<c>> \o ChainAnc(s, Par(s, c))
+\* cls.__mro__ (self first); for the diamond the C3 linearisation of M(L, R) is M, L, R, Base
+Anc(s, c) == IF Shape = "chain" THEN ChainAnc(s, c)
+             ELSE CASE c = 1 -> <<1>> [] c = 2 -> <<2, 1>> [] c = 3 -> <<3, 1>>
+                    [] OTHER -> IF s.cpar = 23 THEN <<4, 2, 3, 1>> ELSE <<4, 3, 2, 1>>
 Subs(s, c) == {d \in Classes : Exists(s, d) /\ c \in Range(Anc(s, d))}      \* util.walk_subclasses(c)
-WalkOrder(s, c) == SelectSeq(<<1, 2, 3, 4>>, LAMBDA d : d \in Subs(s, c))   \* parents before children
+\* the ORDER of util.walk_subclasses (a stack: the subclass created last is visited first).  Chain: parents before children,
+\* nothing else matters.  Diamond: Base.__subclasses__() = [L, R] -> R is popped first, then R's subclass M, and only then L -
+\* so during listen(Base) a not yet established M copies L's collection BEFORE L has received the new listener.
+\* From L (or R) itself the walk is simply L, M.
+WalkOrder(s, c) == SelectSeq(IF Shape = "chain" THEN <<1, 2, 3, 4>>
+                             ELSE IF c = 1 THEN <<1, 3, 4, 2>> ELSE IF c = 4 THEN <<4>> ELSE <<c, 4>>,
+                             LAMBDA d : d \in Subs(s, c))
+\* a class whose ancestors form a chain: there "registration order" is defined; for M(L, R) the order between listeners that
+\* came through different bases is whatever the MRO merge at establishment time gave (named deviation, notes/C28.md)
+Linear(c) == Shape = "chain" \/ c # 4
 RECURSIVE RemoveFirst(_, _)      \* deque.remove
 RemoveFirst(q, x) == IF q = <<>> THEN <<>> ELSE IF Head(q) = x THEN Tail(q) ELSE <<Head(q)>> \o RemoveFirst(Tail(q), x)
 \* ---------------------------------------------------------------- _ClsLevelDispatch
@@ -173,6 +189,7 @@ DoUpdate(s, dst, src, onlyprop) ==      \* dst.dispatch._update(src.dispatch, on
 \* option combinations <<propagate, once, named, retval>> (cfg: CONSTANT Styles <- StylesQuick / StylesFull)
 StylesQuick == {<<FALSE, FALSE, FALSE, FALSE>>, <<TRUE, FALSE, TRUE, FALSE>>, <<FALSE, TRUE, FALSE, TRUE>>, <<TRUE, TRUE, TRUE, TRUE>>}
 StylesFull == BOOLEAN \X BOOLEAN \X BOOLEAN \X BOOLEAN
+StylesMin == {<<FALSE, FALSE, FALSE, FALSE>>, <<TRUE, TRUE, TRUE, TRUE>>}
 NoOpt == <<FALSE, FALSE, FALSE, FALSE>>
 Step(a, t, f, ins, sty, m, res) ==
   /\ st' = res.st
@@ -247,8 +264,12 @@ ClassBeforeInstance ==
       \A i, j \in 1..Len(q) : (i < j /\ q[i] \in RegFns(st) /\ q[j] \in RegFns(st)) => ~(RegOf(st, q[i]).t > 10 /\ RegOf(st, q[j]).t < 10)
 \* insert=True ones first, registration order otherwise - for every class that has a collection and every instance
 InsertedFirstThenRegistrationOrder ==
-   /\ \A c \in st.clin : st.cl[c] = AbsCls(st, c)
-   /\ \A k \in LiveInsts(st) : st.inst[k].ls = AbsInst(st, k) /\ OwnSeq(st, k) = AbsOwn(st, k)
+   /\ \A c \in st.clin : Linear(c) => st.cl[c] = AbsCls(st, c)
+   /\ \A k \in LiveInsts(st) : st.inst[k].ls = AbsInst(st, k) /\ (Linear(st.inst[k].cls) => OwnSeq(st, k) = AbsOwn(st, k))
+\* every class that has a collection holds exactly the listeners registered on it or on ANY class of its MRO, each once
+\* (this is the clause that multiple inheritance stresses: M(L, R) established late must collect from L, R and Base)
+ClassHoldsAllAncestors ==
+   \A c \in st.clin : Range(st.cl[c]) = {e.f : e \in {e \in Regs(st) : e.t \in Range(Anc(st, c))}} /\ IsSet(st.cl[c])
 \* once=True listeners: body runs at most once per registration
 OnceAtMostOnce == \A e \in Regs(st) : e.once => e.n <= 1
 OnceWrapperAgrees == \A e \in Regs(st) : (e.once <=> st.wr[e.f].once > 0) /\ (e.fired <=> st.wr[e.f].once = 2)
@@ -276,8 +297,14 @@ AbsCalls(s, q, x, thr, spent) ==
         ELSE <<[f |-> e.f, x |-> x, kw |-> e.named]>>
              \o AbsCalls(s, Tail(q), IF thr /\ e.retval THEN x + 1 ELSE x, thr, IF e.once THEN spent \cup {e.f} ELSE spent)
 AbsIter(s, k) == IF s.inst[k].join = 0 THEN AbsOwn(s, k) ELSE AbsOwn(s, k) \o AbsOwn(s, s.inst[k].join)
+InvolvedLinear(s, k) == Linear(s.inst[k].cls) /\ (s.inst[k].join # 0 => Linear(s.inst[s.inst[k].join].cls))
 DispatchIsAbstract == [][last'.a = "Dispatch" =>
-                           last'.ret.calls = AbsCalls(st, AbsIter(st, last'.t - 10), 0, last'.m = "iter", {})]_vars
+                           LET k == last'.t - 10
+                               abs == AbsCalls(st, AbsIter(st, k), 0, last'.m = "iter", {})
+                           IN IF InvolvedLinear(st, k) THEN last'.ret.calls = abs
+                              ELSE \* order across the two bases is not defined: same listeners, same multiplicity
+                                   /\ Len(last'.ret.calls) = Len(abs)
+                                   /\ {last'.ret.calls[i].f : i \in 1..Len(abs)} = {abs[i].f : i \in 1..Len(abs)}]_vars
 \* exec_once: nothing runs after a completed first run; a raising run is retried only by the _unless_exception flavour
 ExecOnceOnce == [][(last'.a = "ExecOnce" /\ st.inst[last'.t - 10].xo) => last'.ret.calls = <<>>]_vars
 ExecOnceRuns == [][last'.a = "ExecOnce" => last'.ret.out \in {"ok", "raise"}]_vars
